@@ -123,7 +123,7 @@ def build_queries(funcs, variants, profile):
     def run_fn(method, kinds):
         f = obj_fn(funcs, method)
         params = [Param(i + 1, k) for i, k in enumerate(kinds)]
-        ex = symex.Exec(f, params, variants)
+        ex = symex.Exec(f, params, variants, funcs)
         return f, params, ex.run()
 
     def decls_of(params):
@@ -144,7 +144,7 @@ def build_queries(funcs, variants, profile):
     def is_zero_term(kind, k):
         """`Object::is_zero` of parameter k, from its own MIR (this is the VM's zero-divisor test)."""
         f = obj_fn(funcs, "is_zero")
-        ex = symex.Exec(f, [Param(1, kind)], variants)
+        ex = symex.Exec(f, [Param(1, kind)], variants, funcs)
         outs = ex.run()
         terms = []
         for o in outs:
@@ -502,7 +502,7 @@ def encoding_eval_queries(funcs, variants, profile, items):
         try:
             f = obj_fn(funcs, method)
             params = [Param(i + 1, k) for i, k in enumerate(kinds)]
-            outs = symex.Exec(f, params, variants).run()
+            outs = symex.Exec(f, params, variants, funcs).run()
         except Exception as e:
             book.append((item, None, "untranslatable: " + str(e)))
             continue
@@ -637,7 +637,7 @@ def run(prop_filter, log=None, validate=True):
     res = {"profiles": {}, "queries": [], "notes": [], "validation": {}, "solver_time_s": {}, "inconclusive": [], "violations": []}
     for profile in ("release", "dev"):
         text = dump_mir(profile, log)
-        funcs = mir.parse(text, r"object::<impl at src/object/mod\.rs")
+        funcs = mir.parse(text)      # all bodies: crate-local helpers are executed in place
         qs, notes = build_queries(funcs, variants, profile)
         qs = [q for q in qs if q.meta["prop"] in prop_filter or q.name.startswith("unsup:")]
         res["notes"] += [f"[{profile}] {n}" for n in notes]
